@@ -2,13 +2,13 @@
 # usage: run_all.sh [tier] [seed] [props...]   -- runs the checks sequentially, writes /tmp/run_all_<tier>_<seed>.log
 tier=${1:-quick}; seed=${2:-1}; shift 2
 props=${@:-C01 C02 C03 C04 C05 C06 C07 C08 C09 C10 C11 C12 C13 C14 C15 C16 C17 C18 C19 C20}
-log=/tmp/run_all_${tier}_${seed}.log; : > $log
-cd /verif
+log=${RUN_ALL_LOG:-/tmp/run_all_${tier}_${seed}.log}; : > $log
+cd "$(dirname "$0")/.."
 for p in $props; do
   t0=$(date +%s)
-  VERIF_SEED=$seed timeout 3000 /venv/bin/python check.py $p --tier $tier > /tmp/run_all_$p.out 2>&1; rc=$?
+  VERIF_SEED=$seed timeout $([ "$tier" = thorough ] && echo 20000 || echo 3000) /venv/bin/python check.py $p --tier $tier > ${RUN_ALL_OUT:-/tmp}/run_all_$p.out 2>&1; rc=$?
   t1=$(date +%s)
-  echo "$p rc=$rc wall=$((t1-t0))s $(grep "^$p tier" /tmp/run_all_$p.out | cut -c1-160)" >> $log
-  grep -E "^VIOLATION|HARNESS-ERROR|^note:" /tmp/run_all_$p.out | cut -c1-300 >> $log
+  echo "$p rc=$rc wall=$((t1-t0))s $(grep "^$p tier" ${RUN_ALL_OUT:-/tmp}/run_all_$p.out | cut -c1-160)" >> $log
+  grep -E "^VIOLATION|HARNESS-ERROR|^note:" ${RUN_ALL_OUT:-/tmp}/run_all_$p.out | cut -c1-300 >> $log
 done
 echo DONE >> $log
